@@ -105,6 +105,7 @@ class FuncExec(ExprMixin, CallMixin):
         self.array_facts = {}     # array const name -> [facts]
         self.loop_frames = {}
         self.probe_callees = set()
+        self.extra_axioms = {}    # key -> definitional axiom of a spec function used in this function
 
     # ------------------------------------------------------------------
     def loop_ordinal(self, node):
@@ -129,6 +130,8 @@ class FuncExec(ExprMixin, CallMixin):
         if z3.is_true(goal):
             goal = z3.BoolVal(True)
         self.close_heap(st)
+        if parts is None and z3.is_and(goal) and goal.num_args() > 1:
+            parts = [(str(i + 1), goal.arg(i)) for i in range(goal.num_args())]
         ob = Obligation(self.qual, kind, label, st.pc, goal, st.trace, lineno)
         ob.parts = parts
         self.attach_facts(ob)
@@ -165,7 +168,7 @@ class FuncExec(ExprMixin, CallMixin):
             for m in consts_of(fs):
                 if m in self.array_facts and m not in seen:
                     todo.append(m)
-        ob.facts = facts
+        ob.facts = facts + list(self.extra_axioms.values())
 
     def spec_env(self, st, result=None, exc=None, pre=None):
         names = dict(st.locals)
@@ -478,8 +481,8 @@ class FuncExec(ExprMixin, CallMixin):
                         out.append((st3, x3))
                         continue
                     if ot in ("dict", "OrderedDict"):
-                        self.dict_set(st3, o, k, v)
-                        out.append((st3, None))
+                        for s_ in self.dict_set(st3, o, k, v):
+                            out.append((s_, None))
                     elif ot == "list":
                         i = as_int(k)
                         n = st3.heap.sel("$llen", o)
@@ -494,6 +497,7 @@ class FuncExec(ExprMixin, CallMixin):
         raise Undecided("assignment target %s" % type(t).__name__)
 
     def store_field(self, st, o, attr, v):
+        self.mark_escapes(st, [v])
         s = field_sort(attr)
         if s == AVI:
             v = as_int(v)
@@ -570,6 +574,13 @@ class FuncExec(ExprMixin, CallMixin):
                 a, b = st2.copy(), st2
                 a.assume(c, "L%d: if true" % s.lineno)
                 b.assume(z3.Not(c), "L%d: if false" % s.lineno)
+                # isinstance(x, C) narrows the static type of x in the true branch
+                t = s.test
+                if (isinstance(t, ast.Call) and isinstance(t.func, ast.Name) and t.func.id == "isinstance" and len(t.args) == 2
+                        and isinstance(t.args[0], ast.Name) and not isinstance(t.args[1], ast.Tuple)):
+                    cn = ast.unparse(t.args[1]).split(".")[-1]
+                    if self.eng.ct.known(cn):
+                        a.ltypes[t.args[0].id] = cn
                 if self.feasible(a):
                     out.extend(self.exec_block(s.body, a))
                 if self.feasible(b):
@@ -761,6 +772,7 @@ class FuncExec(ExprMixin, CallMixin):
             st.heap = st.heap.havoc_all()
             for f in self.eng.wf(st.heap):
                 st.assume(f)
+            # (contents of fresh local containers across iterations are the loop invariant's business)
         else:
             # fields the contract does not list as modified can only be written at objects allocated
             # inside this function: keep the loop-entry values of every pre-existing object (checked
@@ -920,12 +932,19 @@ class FuncExec(ExprMixin, CallMixin):
             inner = it.args[0]
         if isinstance(inner, ast.Call) and isinstance(inner.func, ast.Name) and inner.func.id == "range" and not rev:
             mode = "range"
+        dictview = None
+        if (isinstance(inner, ast.Call) and isinstance(inner.func, ast.Attribute) and inner.func.attr in ("values", "keys")
+                and not inner.args and self.static_type(inner.func.value, st) in ("dict", "OrderedDict")):
+            dictview = "$oval" if inner.func.attr == "values" else "$okey"
+            inner = inner.func.value
         for st2, seq, x in (self.ev(inner.args[0] if mode == "range" and len(inner.args) == 1 else inner, st)
                             if mode != "range" or len(inner.args) == 1 else [self._unsupported("range arity")]):
             if x is not None:
                 out.append((st2, ("raise", x)))
                 continue
             t = "int" if mode == "range" else self.static_type(inner, st2)
+            if dictview:
+                t = "dictview"
             et = self.iter_elem_type(inner, st2)
             idx = "_i%d" % k
             itn = "_it%d" % k
@@ -933,7 +952,7 @@ class FuncExec(ExprMixin, CallMixin):
             if t == "set":
                 out.extend(self.for_set(s, st2, seq, k, inv, et))
                 continue
-            if t not in ("list", "tuple", "int"):
+            if t not in ("list", "tuple", "int", "dictview"):
                 hint = self.contract.calls.get("for:" + ast.unparse(it))
                 if hint:
                     out.extend(self.for_iterator(s, st2, seq, k, inv, hint))
@@ -943,6 +962,8 @@ class FuncExec(ExprMixin, CallMixin):
             def length(stx):
                 if t == "list":
                     return stx.heap.sel("$llen", seq)
+                if t == "dictview":
+                    return stx.heap.sel("$olen", seq)
                 if t == "tuple":
                     return smt.tlen(seq)
                 return as_int(seq)
@@ -950,6 +971,8 @@ class FuncExec(ExprMixin, CallMixin):
             def item(stx, i):
                 if t == "list":
                     return z3.Select(stx.heap.sel("$litem", seq), i)
+                if t == "dictview":
+                    return z3.Select(stx.heap.sel(dictview, seq), i)
                 if t == "tuple":
                     return smt.titem(seq, i)
                 return smt.box(i)
